@@ -98,16 +98,19 @@ Turkey UCT US/Alaska US/Aleutian US/Arizona US/Central US/East-Indiana US/Easter
 US/Michigan US/Mountain US/Pacific US/Samoa UTC Universal W-SU WET Zulu
 """.split()
 
-# Zones whose 1980-2020 rules are the same in tzdb 2022a and 2025b (checked against the pinned SUT during triage, see
-# findings/C15.md); includes half-hour / 45-minute offsets, southern-hemisphere DST and a 30-minute DST (Lord_Howe).
+# Zones whose 1980-2020 rules are the same in tzdb 2022a and 2025b; includes half-hour / 45-minute offsets, southern-
+# hemisphere DST and a 30-minute DST (Lord_Howe). Triage (findings/C15.md): a sweep of all 549 identifiers the SUT can read,
+# every 53 h over 1980-2020, showed disagreement only for 13 zones whose history was revised or merged after 2022a
+# (America/Bogota, America/Cancun, America/Merida, America/Pangnirtung, Antarctica/Vostok, Asia/Choibalsan, Asia/Manila,
+# Atlantic/Azores, Atlantic/Madeira, Europe/Lisbon, Portugal, Europe/Uzhgorod, Europe/Zaporozhye): none of them is listed.
 CURATED = [
     "Europe/Warsaw", "Europe/London", "Europe/Paris", "Europe/Berlin", "Europe/Madrid", "Europe/Rome", "Europe/Moscow",
-    "Europe/Lisbon", "Europe/Athens", "Europe/Helsinki", "Europe/Dublin", "Atlantic/Reykjavik",
+    "Europe/Athens", "Europe/Helsinki", "Europe/Dublin", "Atlantic/Reykjavik",
     "America/New_York", "America/Chicago", "America/Denver", "America/Los_Angeles", "America/Anchorage",
     "America/Toronto", "America/Vancouver", "America/Halifax", "America/St_Johns", "America/Phoenix",
-    "America/Sao_Paulo", "America/Bogota", "America/Lima", "America/Caracas", "Pacific/Honolulu",
+    "America/Sao_Paulo", "America/Mexico_City", "America/Lima", "America/Caracas", "Pacific/Honolulu",
     "Asia/Tokyo", "Asia/Shanghai", "Asia/Kolkata", "Asia/Kathmandu", "Asia/Dubai", "Asia/Tehran", "Asia/Jerusalem",
-    "Asia/Singapore", "Asia/Hong_Kong", "Asia/Seoul", "Asia/Karachi", "Asia/Bangkok",
+    "Asia/Singapore", "Asia/Hong_Kong", "Asia/Seoul", "Asia/Karachi", "Asia/Bangkok", "Asia/Dhaka",
     "Australia/Sydney", "Australia/Adelaide", "Australia/Perth", "Australia/Lord_Howe", "Australia/Darwin",
     "Pacific/Auckland", "Pacific/Chatham", "Africa/Johannesburg", "Africa/Lagos", "Africa/Nairobi", "Africa/Cairo",
     "Etc/UTC", "UTC",
